@@ -119,7 +119,22 @@ def gen_met(rng):
 
 
 TRIES = [1, 1, 2, 2, 3, 3, 4, 5, 10, 51, 52, 53, 63, 64, 65, 66, 70, 100, 200]
-REPLIES = ["a", "x", "s", "n", "r", "c", "f", "F", "b", "z"]
+REPLIES = ["a", "x", "s", "n", "r", "c", "f", "F", "b", "z", "g", "G"]
+RETRYING = "snrcfFb"     # replies that make the library re-send
+GARBAGE = "gG"           # messages that do not parse
+
+
+def batch(rng):
+    """one read: retry-triggering replies, duplicates, answers, garbage, in every order"""
+    n = rng.choice([2, 2, 3, 3, 4, 6])
+    r = rng.random()
+    if r < 0.35:      # the critical shape: a re-send is pending when the walk hits garbage
+        s = rng.choice(RETRYING) + "".join(rng.choice(RETRYING + "az") for _ in range(n - 2)) + rng.choice(GARBAGE)
+    elif r < 0.5:     # garbage first
+        s = rng.choice(GARBAGE) + "".join(rng.choice("asnrcfFbxzgG") for _ in range(n - 1))
+    else:
+        s = "".join(rng.choice("aaxsnrcfFbzgG" + RETRYING) for _ in range(n))
+    return "B" + s
 
 
 def gen_retry(rng, tier, timers_only=False):
@@ -137,16 +152,18 @@ def gen_retry(rng, tier, timers_only=False):
             flags |= bit
     t0 = rng.choice([0, 1000, 10 ** 9, 1 << 40])
     acts = []
-    style = "timers" if timers_only else rng.choice(["timeouts", "timeouts", "mixed", "mixed", "replies", "faults", "servers", "dups"])
+    style = "timers" if timers_only else rng.choice(["timeouts", "timeouts", "mixed", "mixed", "replies", "faults", "servers", "dups", "batches", "batches"])
     n = 0 if style == "timeouts" else rng.choice([1, 2, 4, 8, 16, 30])
     cur = S
     for _ in range(n):
         r = rng.random()
         if style == "timers":
             acts.append(rng.choice(["t", "e", "e", "l1", "l%d" % rng.choice([0, 1, 999, 100000])]))
-        elif style == "replies" or (style == "mixed" and r < 0.5):
+        elif style == "replies" or (style == "mixed" and r < 0.4):
             k = rng.choice(REPLIES)
             acts.append("R" + k + (str(rng.choice([2, 3, 8])) if rng.random() < 0.15 else ""))
+        elif style == "batches" or (style == "mixed" and r < 0.6):
+            acts.append(batch(rng) if rng.random() < 0.8 else rng.choice(["t", "Rg", "RG", "X"]))
         elif style == "dups":
             acts.append("R" + rng.choice(["c", "b", "s", "f", "a"]) + str(rng.choice([2, 3, 8, 40])))
         elif style == "faults" or (style == "mixed" and r < 0.75):
